@@ -151,7 +151,7 @@ CHECKS = {
                 "deliveries), then every (since, until, reverse) combination over all entries plus the open end and an unknown "
                 "identifier listed on both replicas and both stores; non-trivial = at least one simulator-chosen delivery; distinct = "
                 "distinct hash of the append/delivery trace. scheduler_or_event_steps counts individual listings checked.",
-        "required_probes": ["invalid_range", "all_ranges_checked"],
+        "required_probes": ["invalid_range", "all_ranges_checked", "midway_listing"],
         "assumptions": COMMON_ASSUMPTIONS + ["the GroupMetadataList/GroupMessageList RPC wrappers are not driven; they pass since/until/reverse through unchanged"],
     },
     "C03": {
